@@ -436,6 +436,23 @@ class Runner:
         self.t.clear()
         self.m.clear()
 
+    def op_strip(self, op):
+        """rstrip / optimize_width: whole-table operations whose content semantics are judged by C17; here they take part in
+        the histories of the structural (C07) and cache-consistency (C02) oracles, and the grid model is re-read from the
+        independent expansion afterwards so that later coordinates stay meaningful."""
+        if op["k"] == "rstrip":
+            self.t.rstrip(aggressive=bool(op.get("aggr")))
+        else:
+            self.t.optimize_width()
+        ex = odfread.expand_table(odfread.parse_fragment(self.t.serialize()))
+        rows = []
+        for y, row in enumerate(ex["rows"]):
+            # office-suite string cells (no office:string-value) keep whatever the table reads for them
+            rows.append([(v if not isinstance(v, odfread.Opaque) else self.t.get_value((x, y)), s_)
+                         for x, (v, _vt, s_, _c) in enumerate(row)])
+        self.m = Grid(ex["col_styles"], rows)
+        self.labels.add("strip-op")
+
     def op_row_edit(self, op):
         """get_row -> Row-level edits on the detached copy -> push back."""
         y = op["y"]
@@ -755,7 +772,7 @@ def _eq(a, b):
 ROW_ADDERS = {"set_value", "set_cell", "insert_cell", "append_cell", "set_row", "insert_row", "append_row",
               "extend_rows", "set_row_values", "set_row_cells", "set_values", "set_cells", "row_edit"}
 MUTATORS = ROW_ADDERS | {"delete_cell", "delete_row", "set_column_values", "set_column_cells", "set_column",
-                         "insert_column", "append_column", "delete_column", "clear"}
+                         "insert_column", "append_column", "delete_column", "clear", "strip"}
 
 
 def run_history(spec, ops, mode, ctx):
@@ -906,6 +923,11 @@ def make_machine(ctx, mode, corpus_specs=(), warm_weight=1):
         @rule(cx=COORD_CLS, kx_=kx, form=FORM1)
         def delete_column(self, cx, kx_, form):
             self.go({"op": "delete_column", "x": self.X(cx, kx_), "form": form})
+
+        if mode in ("C02", "C07"):
+            @rule(k=st.sampled_from(["rstrip", "optimize_width"]), aggr=st.booleans())
+            def strip(self, k, aggr):
+                self.go({"op": "strip", "k": k, "aggr": aggr})
 
         @rule(really=st.integers(0, 5))
         def clear(self, really):
